@@ -12,6 +12,25 @@ import time
 from .astutil import AnalysisError
 from .model import PKG_SUBDIR
 
+_PIPE_BROKEN = False
+
+
+def out(*args, **kwargs) -> None:
+    """print() that survives a closed stdout (e.g. `./check C01 | head`): the verdict is the exit status."""
+    global _PIPE_BROKEN
+    if _PIPE_BROKEN:
+        return
+    try:
+        print(*args, **kwargs)
+        sys.stdout.flush()
+    except BrokenPipeError:
+        _PIPE_BROKEN = True
+        try:
+            sys.stdout = open(os.devnull, "w")
+        except OSError:
+            pass
+
+
 VERIF_DIR = os.path.dirname(os.path.dirname(os.path.abspath(__file__)))
 EVIDENCE_DIR = os.path.join(VERIF_DIR, "evidence")
 REPLAY_DIR = os.path.join(VERIF_DIR, "replays")
@@ -98,9 +117,15 @@ class Run:
 
     # ---------------------------------------------------------------- registration
 
+    # The instance floor of a rule is 60 % of the count confirmed by hand on the pinned tree (at least 1):
+    # low enough that a refactoring which merges a few paths does not stop the check, high enough that a
+    # rule which lost its anchor sites cannot pass vacuously.
+    FLOOR_FACTOR = 0.6
+
     def rule(self, rule_id: str, text: str, expected_min: int = 1) -> None:
         if rule_id not in self.rules:
-            self.rules[rule_id] = RuleStats(rule_id, text, expected_min)
+            floor = max(1, int(expected_min * self.FLOOR_FACTOR + 0.999)) if expected_min > 2 else expected_min
+            self.rules[rule_id] = RuleStats(rule_id, text, max(1, floor))
 
     def analysed(self, fi, npaths: int = 0) -> None:
         self.functions_analysed.add(fi.key if hasattr(fi, "key") else str(fi))
@@ -185,48 +210,45 @@ class Run:
         new, matched, short = self.classify()
 
         wall = time.time() - self.t0
-        out = sys.stdout
         total = sum(st.instances for st in self.rules.values())
+        self._write_evidence(wall, total, new, matched)
         if not self.quiet:
-            print(
+            out(
                 f"[{self.prop}] tier={self.tier} modules={len(self.model.modules)} "
                 f"functions={len(self.functions_analysed)} paths={self.paths_enumerated} "
-                f"rules={len(self.rules)} instances={total}",
-                file=out,
+                f"rules={len(self.rules)} instances={total}"
             )
             for st in self.rules.values():
-                print(
-                    f"  {st.rule:8s} instances={st.instances:4d} (min {st.expected_min}) failed={st.failed}  {st.text}",
-                    file=out,
+                out(
+                    f"  {st.rule:8s} instances={st.instances:4d} (min {st.expected_min}) failed={st.failed}  {st.text}"
                 )
             for n in self.notes:
-                print(f"  note: {n}", file=out)
+                out(f"  note: {n}")
         for v, k in matched:
-            print(f"KNOWN-FINDING: property={self.prop} {v.rule} {v.relfile}:{v.func} [{v.instance}] {k.get('what', v.message)}")
+            out(f"KNOWN-FINDING: property={self.prop} {v.rule} {v.relfile}:{v.func} [{v.instance}] {k.get('what', v.message)}")
         code = 0
         if short:
             for s in short:
-                print(f"ANALYSIS-ERROR property={self.prop} {s}")
+                out(f"ANALYSIS-ERROR property={self.prop} {s}")
             code = 2
         os.makedirs(REPLAY_DIR, exist_ok=True)
         if new:
             for v in new:
-                print(f"{v.file}:{v.line}  {v.rule}  [{v.instance}]  in {v.func}: {v.message}")
+                out(f"{v.file}:{v.line}  {v.rule}  [{v.instance}]  in {v.func}: {v.message}")
                 for d in v.details:
-                    print(f"      {d}")
+                    out(f"      {d}")
                 digest = hashlib.sha256(v.key.encode()).hexdigest()[:10]
                 rdir = os.path.join(REPLAY_DIR, self.prop)
                 os.makedirs(rdir, exist_ok=True)
                 rpath = os.path.join(rdir, f"{v.rule}-{digest}.json")
                 with open(rpath, "w", encoding="utf-8") as f:
                     json.dump(v.to_json(), f, indent=1, sort_keys=True)
-                print(f"VIOLATION property={self.prop} replay={rpath}")
+                out(f"VIOLATION property={self.prop} replay={rpath}")
             code = 1 if code == 0 else code
             if code == 2:
                 code = 1
-        self._write_evidence(wall, total, new, matched)
         if not self.quiet and code == 0:
-            print(f"[{self.prop}] OK ({wall:.2f}s)")
+            out(f"[{self.prop}] OK ({wall:.2f}s)")
         return code
 
     def _write_evidence(self, wall: float, total: int, new, matched) -> None:
@@ -296,7 +318,7 @@ class Run:
 
 def analysis_error(prop: str, tier: str, level: str, err: Exception) -> int:
     """Print the ANALYSIS-ERROR line and leave an evidence file saying so."""
-    print(f"ANALYSIS-ERROR property={prop} {type(err).__name__}: {err}")
+    out(f"ANALYSIS-ERROR property={prop} {type(err).__name__}: {err}")
     os.makedirs(EVIDENCE_DIR, exist_ok=True)
     try:
         seed = int(os.environ.get("VERIF_SEED", "0"))
